@@ -8,7 +8,7 @@ from .. import gen, impl, oracle, ser, stream
 
 ID = "C10"
 LEVEL = "proof"
-PROPS_MODULE = "SymmModel.Props.C10All2"
+PROPS_MODULE = "SymmModel.Props.C10All3"
 THEOREMS = [
     "SymmModel.C10.oddposDag_involutive",
     "SymmModel.C10.Index.conj_conj",
@@ -55,10 +55,21 @@ THEOREMS = [
     "SymmModel.C10.network_norm_halves_any_order_partial",
     "SymmModel.C10.halves_bond_order",
     "SymmModel.C10.network_norm_routes_agree_partial",
-    "SymmModel.C10.network_norm_needs_flips"
+    "SymmModel.C10.network_norm_needs_flips",
+    "SymmModel.C10.netFullB_def",
+    "SymmModel.C10.netFull_indices",
+    "SymmModel.C10.axesTW_def",
+    "SymmModel.C10.assoc_scalar",
+    "SymmModel.C10.labelRoutes_net",
+    "SymmModel.C10.network_norm_bracketings_partial",
+    "SymmModel.C10.network_norm_tensorwise",
+    "SymmModel.C10.network_norm_bracketings_comm_partial",
+    "SymmModel.C10.network_norm_bracketings_swapped_partial",
+    "SymmModel.C10.bracketings_def",
+    "SymmModel.C10.tensorwise_pruned_witness"
 ]
-LEAN_FILES = ["SymmModel.Props.C10", "SymmModel.Proofs.LazyLemmas", "SymmModel.Props.C10b", "SymmModel.Proofs.NormLemmas", "SymmModel.Props.C10c", "SymmModel.Props.C10All2", "SymmModel.Proofs.NormNet1", "SymmModel.Proofs.NormNet2", "SymmModel.Proofs.NormNet3", "SymmModel.Proofs.NormNet4", "SymmModel.Proofs.NormNet5", "SymmModel.Proofs.NormNet6", "SymmModel.Proofs.NormNetLabels"]
-PLANNED = ["network norm along routes other than halves-first (needs tensordotF associativity, C04 S7)", "halves in the other operand order", "three-tensor chains", "mode = fused"]
+LEAN_FILES = ["SymmModel.Props.C10", "SymmModel.Proofs.LazyLemmas", "SymmModel.Props.C10b", "SymmModel.Proofs.NormLemmas", "SymmModel.Props.C10c", "SymmModel.Props.C10All2", "SymmModel.Proofs.NormNet1", "SymmModel.Proofs.NormNet2", "SymmModel.Proofs.NormNet3", "SymmModel.Proofs.NormNet4", "SymmModel.Proofs.NormNet5", "SymmModel.Proofs.NormNet6", "SymmModel.Proofs.NormNetLabels", "SymmModel.Props.C10d", "SymmModel.Props.C10All3", "SymmModel.Proofs.NormNet7", "SymmModel.Proofs.NormNet8", "SymmModel.Proofs.NormNet9", "SymmModel.Proofs.NormNet10", "SymmModel.Proofs.NormNet11", "SymmModel.Proofs.NormNet12"]
+PLANNED = ["sequential routes S1-S4 without the no-pruning guard netFullB (needs the weak-guard S7, now in C04e)", "bracketings that first contract a ket with a bra tensor", "mixed operand orders", "several labels in S1-S4", "three-tensor chains", "mode = fused"]
 RULE = ("random fermionic arrays (all symmetries, every dualness pattern, even/odd charge with labels, pending signs, "
         "real/complex): <x|x> through conj (all-ket or phase_dual) in both operand orders equals the exact integer "
         "sum |x|^2; conj/dagger involutions; dagger == transpose(conj) for both settings of phase_dual; 2-3 tensor "
